@@ -9,7 +9,7 @@ TRACE_MODULE = "InstTrace"
 TRACE_CFG = "InstTrace.cfg"
 RULE = ("random compatible master families in the exact domain (2-3 masters on one axis at design locations 0/4/8, default at "
         "either end or in the middle, perturbed coordinates / offsets / advances / anchors, per-master kerning and info, "
-        "optionally a sparse intermediate master) x instance locations 0..8 (master locations, extremes, in between) x "
+        "optionally a glyph left empty in one non-default master) x instance locations 0..8 (master locations, extremes, in between) x "
         "round_geometry on/off x substitution rules with an axis condition; each instance is generated twice from one "
         "Instantiator, after other instances and from a fresh Instantiator in another order; sources are snapshotted; "
         "non-trivial = the location is not a master location; distinct by family digest + location + options")
@@ -35,6 +35,17 @@ def _family(rng):
         for k in range(nm):
             gs = base if k == default else gen.perturb_master(rng, base, change_2x2=0.0)
             masters.append(copy.deepcopy(gs))
+        # a glyph left EMPTY in one non-default master (the designer has not drawn it there yet): that master is skipped
+        # for this glyph -- for outline glyphs and for composites alike
+        if nm == 3 and default != 1 and rng.random() < 0.45:
+            k = 1     # (the intermediate master: the remaining ones still span the axis, so no location is extrapolated)
+            cands = [n_ for n_, g in base.items() if g["cs"] or g["comps"]]
+            used = {c["b"] for g in base.values() for c in g["comps"]}
+            comp_first = [n_ for n_ in cands if base[n_]["comps"] and not base[n_]["cs"] and n_ not in used]
+            pool = comp_first if comp_first and rng.random() < 0.7 else [n_ for n_ in cands if n_ not in used]
+            if pool:
+                n_ = rng.choice(pool)
+                masters[k][n_] = dict(masters[k][n_], cs=[], comps=[], anchors=[])
         # a sparse intermediate master (layer-less here: a master lacking some glyphs is modelled by a full master; sparse
         # layers are exercised by C09/C10)
         names = sorted(base)
@@ -107,14 +118,17 @@ def execute(case):
     inst = Instantiator.from_designspace(ds, round_geometry=case["round"])
     recs = []
     results = {}
-    for loc in case["inst_locs"]:
-        results[loc] = _instance(ds, inst, loc)
-    # a fresh instantiator, other order
-    ds2 = _build(case)
-    inst2 = Instantiator.from_designspace(ds2, round_geometry=case["round"])
-    other = {}
-    for loc in reversed(case["inst_locs"]):
-        other[loc] = _instance(ds2, inst2, loc)
+    try:
+        for loc in case["inst_locs"]:
+            results[loc] = _instance(ds, inst, loc)
+        # a fresh instantiator, other order
+        ds2 = _build(case)
+        inst2 = Instantiator.from_designspace(ds2, round_geometry=case["round"])
+        other = {}
+        for loc in reversed(case["inst_locs"]):
+            other[loc] = _instance(ds2, inst2, loc)
+    except Exception as e:  # noqa -- a compatible family must instantiate
+        return [{"tid": f"{case['cid']}/err", "err": type(e).__name__ + ": " + str(e)[:160], "loc": -1, "locs": fam["locs"], "_sig": [case["cid"], "err"]}]
     src_same = before == [snapshot.font_snapshot(f) for f in fonts]
     for loc in case["inst_locs"]:
         f = results[loc]
